@@ -1,6 +1,5 @@
-from collections.abc import MutableMapping
+from collections.abc import Mapping, MutableMapping, Sequence
 from urllib.parse import urlsplit
-import itertools
 import json
 import pkgutil
 import re
@@ -159,10 +158,40 @@ def ensure_list(thing):
     return thing
 
 
+def _mapping_equal(one, two):
+    """
+    Check if two mappings are equal using the semantics of `equal`.
+    """
+    if len(one) != len(two):
+        return False
+    return all(
+        key in two and equal(value, two[key])
+        for key, value in one.items()
+    )
+
+
+def _sequence_equal(one, two):
+    """
+    Check if two sequences are equal using the semantics of `equal`.
+    """
+    if len(one) != len(two):
+        return False
+    return all(equal(i, j) for i, j in zip(one, two))
+
+
 def equal(one, two):
     """
     Check if two things are equal, but evade booleans and ints being equal.
+
+    Recurses into sequences and mappings, so that booleans and ints are
+    told apart at any depth.
     """
+    if isinstance(one, str) or isinstance(two, str):
+        return one == two
+    if isinstance(one, Sequence) and isinstance(two, Sequence):
+        return _sequence_equal(one, two)
+    if isinstance(one, Mapping) and isinstance(two, Mapping):
+        return _mapping_equal(one, two)
     return unbool(one) == unbool(two)
 
 
@@ -182,25 +211,18 @@ def uniq(container):
     """
     Check if all of a container's elements are unique.
 
-    Successively tries first to rely that the elements are hashable, then
-    falls back on them being sortable, and finally falls back on brute
-    force.
+    Tries to rely on the elements being hashable (scalars), and otherwise
+    falls back on brute force, comparing with `equal` so that booleans and
+    ints nested inside arrays and objects are told apart too.
     """
 
     try:
         return len(set(unbool(i) for i in container)) == len(container)
     except TypeError:
-        try:
-            sort = sorted(unbool(i) for i in container)
-            sliced = itertools.islice(sort, 1, None)
-            for i, j in zip(sort, sliced):
-                if i == j:
+        seen = []
+        for e in container:
+            for i in seen:
+                if equal(i, e):
                     return False
-        except (NotImplementedError, TypeError):
-            seen = []
-            for e in container:
-                e = unbool(e)
-                if e in seen:
-                    return False
-                seen.append(e)
+            seen.append(e)
     return True
